@@ -18,11 +18,12 @@ Lemma lifespan_read_from_current_params_spec : lifespan_read_from_current_params
 Lemma ordered_calls_set_and_clear_flag_spec : ordered_calls_set_and_clear_flag = true. Proof. vm_compute. reflexivity. Qed.
 Lemma failure_terminates_and_clears_spec : failure_terminates_and_clears = true. Proof. vm_compute. reflexivity. Qed.
 Lemma cut_short_terminates_spec : cut_short_terminates = true. Proof. vm_compute. reflexivity. Qed.
+Lemma start_workers_resets_spec : start_workers_resets = true. Proof. vm_compute. reflexivity. Qed.
 Lemma eq_compares_all_fields_spec : eq_compares_all_fields = true. Proof. vm_compute. reflexivity. Qed.
 
 Ltac facts := rewrite ?setters_reset_comms_spec, ?changed_settings_restart_spec, ?new_params_shipped_spec,
   ?fresh_workers_when_none_spec, ?helper_chosen_per_chunk_spec, ?lifespan_read_from_current_params_spec,
-  ?ordered_calls_set_and_clear_flag_spec, ?failure_terminates_and_clears_spec, ?cut_short_terminates_spec in *.
+  ?ordered_calls_set_and_clear_flag_spec, ?failure_terminates_and_clears_spec, ?cut_short_terminates_spec, ?start_workers_resets_spec in *.
 
 Lemma opt_eqb_eq a b : opt_eqb a b = true -> a = b.
 Proof. destruct a, b; cbn; intros H; try discriminate; try reflexivity. apply Nat.eqb_eq in H. congruence. Qed.
@@ -39,6 +40,7 @@ Proof.
 Qed.
 
 Definition HI (s : hst) : Prop :=
+  (stale_err s = true -> alive s = false) /\
   keep_order s = false /\
   (alive s = true -> initialized s = true -> w_layout s = p_layout s) /\
   (alive s = true -> p_params s = Some (w_params s)).
@@ -53,30 +55,31 @@ Lemma hstep_HI s o : HI s -> HI (fst (hstep s o)) /\
                o_gen ob = (if alive s && initialized s then gen s else S (gen s))
   | None => True end.
 Proof.
-  intros (Hk & Hl & Hp). destruct o as [ordered mp out|l|b| |]; cbn [hstep fst snd]; facts.
+  intros (Hst & Hk & Hl & Hp). destruct o as [ordered mp out|l|b| |]; cbn [hstep fst snd]; facts.
   - (* a call *)
+    assert (Hns : alive s = true -> stale_err s = false).
+    { intros Ha. destruct (stale_err s) eqn:E; [rewrite (Hst eq_refl) in Ha; discriminate|reflexivity]. }
     destruct (alive s) eqn:Ha, (initialized s) eqn:Hi; cbn [andb negb].
     + (* alive, initialised: reuse; ship parameters when they differ *)
-      specialize (Hl eq_refl eq_refl). specialize (Hp eq_refl). rewrite Hp.
+      specialize (Hl eq_refl eq_refl). specialize (Hp eq_refl). rewrite Hp. rewrite (Hns eq_refl).
       destruct (mp_eqb (w_params s) mp) eqn:He; cbn [negb andb].
-      * apply mp_eqb_eq in He.
-        destruct out; cbn; (split; [unfold HI; cbn; repeat split; auto; intros; try congruence|]); auto.
-        all: try (unfold good_obs; cbn; rewrite ?andb_true_r; subst mp; repeat split; auto;
-                  destruct ordered; cbn; auto; rewrite ?Hk; auto).
-        all: try (intros; discriminate).
-      * destruct out; cbn; (split; [unfold HI; cbn; repeat split; auto; intros; try congruence|]); auto.
-        all: try (unfold good_obs; cbn; repeat split; auto; destruct ordered; cbn; auto; rewrite ?Hk; auto).
-        all: try (intros; discriminate).
+      * apply mp_eqb_eq in He. subst mp.
+        destruct out; cbn; unfold HI, good_obs; cbn; rewrite ?andb_true_r;
+          repeat split; auto; try discriminate; try congruence; try (destruct ordered; cbn; auto; rewrite ?Hk; auto; fail);
+          try (intros; discriminate).
+      * destruct out; cbn; unfold HI, good_obs; cbn;
+          repeat split; auto; try discriminate; try congruence; try (destruct ordered; cbn; auto; rewrite ?Hk; auto; fail);
+          try (intros; discriminate).
     + (* alive but the settings changed: restart with the pool's current settings *)
-      destruct out; cbn; (split; [unfold HI; cbn; repeat split; auto; intros; try congruence|]); auto.
-      all: try (unfold good_obs; cbn; repeat split; auto; destruct ordered; cbn; auto; rewrite ?Hk; auto).
-      all: try (intros; discriminate).
-    + destruct out; cbn; (split; [unfold HI; cbn; repeat split; auto; intros; try congruence|]); auto.
-      all: try (unfold good_obs; cbn; repeat split; auto; destruct ordered; cbn; auto; rewrite ?Hk; auto).
-      all: try (intros; discriminate).
-    + destruct out; cbn; (split; [unfold HI; cbn; repeat split; auto; intros; try congruence|]); auto.
-      all: try (unfold good_obs; cbn; repeat split; auto; destruct ordered; cbn; auto; rewrite ?Hk; auto).
-      all: try (intros; discriminate).
+      destruct out; cbn; unfold HI, good_obs; cbn;
+        repeat split; auto; try discriminate; try congruence; try (destruct ordered; cbn; auto; rewrite ?Hk; auto; fail);
+        try (intros; discriminate).
+    + destruct out; cbn; unfold HI, good_obs; cbn;
+        repeat split; auto; try discriminate; try congruence; try (destruct ordered; cbn; auto; rewrite ?Hk; auto; fail);
+        try (intros; discriminate).
+    + destruct out; cbn; unfold HI, good_obs; cbn;
+        repeat split; auto; try discriminate; try congruence; try (destruct ordered; cbn; auto; rewrite ?Hk; auto; fail);
+        try (intros; discriminate).
   - (* a setter of the extras *)
     split; [|exact I]. unfold HI; cbn. repeat split; auto.
     intros Ha Hi'. destruct (layout_eqb l (p_layout s)) eqn:E; cbn in Hi'; [|discriminate].
@@ -226,8 +229,23 @@ Theorem post_failure_fresh l k h ordered mp out later :
 Proof.
   intros Hout s. apply same_future_run.
   assert (HIs : HI s) by (apply hstep_HI; apply hstate_HI; apply hinit_HI).
-  destruct HIs as (Hk & _ & _).
-  assert (Ha : alive s = false) by (unfold s; destruct out; [congruence| |]; cbn [hstep fst]; facts; reflexivity).
+  destruct HIs as (_ & Hk & _ & _).
+  assert (Ha : alive s = false) by (unfold s; destruct out; [congruence| | |]; cbn [hstep fst]; facts; reflexivity).
   unfold same_future, hinit; cbn. split; [assumption|]. split; [reflexivity|]. split; [reflexivity|].
   left. split; [assumption|reflexivity].
+Qed.
+
+(* a call that fails in worker_init / worker_exit / the main process surfaces its OWN error, never
+   one stored by an earlier call: whenever such an error is still stored, no workers are alive, so
+   the call starts workers, which resets the three permanent result objects *)
+Theorem never_surfaces_stale_error l k h : Forall (fun b => b = true) (hfails (hinit l k) h).
+Proof.
+  assert (H : forall h s, HI s -> Forall (fun b => b = true) (hfails s h)).
+  { induction h0 as [|o r IH]; intros s HIs; cbn [hfails]; [constructor|].
+    apply Forall_app. split; [|apply IH; apply (hstep_HI s o HIs)].
+    destruct o as [ordered mp out|?|?| |]; cbn [surfaces_own]; try constructor.
+    destruct out; try constructor; [|constructor]. facts.
+    destruct HIs as (Hst & _). destruct (stale_err s) eqn:E; [rewrite (Hst eq_refl); cbn; reflexivity|].
+    destruct (alive s && negb (initialized s)); destruct (alive s); cbn; reflexivity. }
+  apply H. apply hinit_HI.
 Qed.
